@@ -198,13 +198,19 @@ NoteOf(e) ==
 \* A result is a value: what the caller reads from the returned slices / strings / structs after further calls of the
 \* same function (with other arguments) and of other functions were made must be what it read when the call returned.
 Held(e) == e.hts = e.ots /\ e.hb = e.ob /\ e.hn = e.on
+\* Rendering is a READ of the wire octets: the octets the caller handed in (the slice, or the element's own contents) are
+\* the same afterwards (io >= 1), and rendering the same element once more gives the same text (io = 2).
+InputKept(e) == e.io = 0 \/ e.ib = e.b
+SameAgain(e) == e.io < 2 \/ e.rts = e.ots
 TInit == l = 1 /\ TLCSet(2, 0) /\ TLCSet(3, 0) /\ TLCSet(4, 0) /\ TLCSet(5, 0)
 TNext ==
   /\ l <= Len(TraceLog)
   /\ LET e == TraceLog[l]
          j == Judge(e)
          n == NoteOf(e)
-     IN /\ CASE j = OK /\ Held(e) -> TLCSet(4, TLCGet(4) + 1)
+     IN /\ CASE j = OK /\ Held(e) /\ (e.panic \/ (InputKept(e) /\ SameAgain(e))) -> TLCSet(4, TLCGet(4) + 1)
+             [] j = OK /\ Held(e) /\ ~InputKept(e) -> PrintT(<<"MISMATCH", l, e.op, "wire-octets-changed-by-rendering">>)
+             [] j = OK /\ Held(e) -> PrintT(<<"MISMATCH", l, e.op, "second-rendering-differs">>)
              [] j = OK -> PrintT(<<"MISMATCH", l, e.op, "result-changed-after-return">>)
              [] j = SKIP -> TLCSet(5, TLCGet(5) + 1)
              [] OTHER -> PrintT(<<"MISMATCH", l, e.op, j>>)
